@@ -378,7 +378,8 @@ pub fn generate(rng: &mut Rng, o: &GenOpts) -> Gen {
                 14 if o.intrinsics => {
                     let declared = rng.chance(2, 3);
                     let written = if declared {
-                        let k = 1 + rng.usize(2);
+                        // one declared intrinsic in four writes nothing (an empty list, as lifters emit for traps and syscalls)
+                        let k = if rng.chance(1, 4) { 0 } else { 1 + rng.usize(2) };
                         Some((0..k).map(|_| Expression::Scalar(non_sp[rng.usize(non_sp.len())].clone())).collect::<Vec<_>>())
                     } else {
                         None
